@@ -79,7 +79,8 @@ type attempt struct {
 	events    []Ev
 	deleted   []IdRef
 	commits   []string
-	mustFail  string // why the transaction is bound to fail ("" = it should commit)
+	pres      []string // tags of the pre-commit actions this attempt registered
+	mustFail  string   // why the transaction is bound to fail ("" = it should commit)
 	rejectWhy string
 	firedOp   string // fault fired during the current op
 	seen      map[string]int
@@ -135,10 +136,11 @@ type Run struct {
 	committedNonce       string
 	meta                 metaModel
 	snaps                []*snapRec
-	restoring            *pendingRestore
+	restoring            map[string]*pendingRestore // by task: restores that have been called and have not returned
 	expectRestored       *snapRec
 	restores             int
 	restoreListenerCalls int
+	restoreListenerN     [3]int // calls per listener: three listeners made from one function literal
 	tlCounter            int
 	helperExp            map[string]string
 	helperSeen           map[string][]string
@@ -254,13 +256,20 @@ func (r *Run) open() error {
 	r.s.mu.Lock()
 	r.s.mainDb = db
 	r.s.mu.Unlock()
-	db.AddRestoreListener(func() {
-		defer r.s.AsyncDone()
-		r.s.AsyncEnter("async:restore-listener")
-		r.mu.Lock()
-		r.restoreListenerCalls++
-		r.mu.Unlock()
-	})
+	for k := 0; k < 3; k++ {
+		k := k
+		// several components subscribing with the same piece of code (closures of one literal)
+		db.AddRestoreListener(func() {
+			defer r.s.AsyncDone()
+			r.s.AsyncEnter(fmt.Sprintf("async:restore-listener%d", k))
+			r.mu.Lock()
+			if k == 0 {
+				r.restoreListenerCalls++
+			}
+			r.restoreListenerN[k]++
+			r.mu.Unlock()
+		})
+	}
 	db.AddTxCompleteListener(func(ctx boltz.MutateContext) {
 		r.mu.Lock()
 		tr := r.ctxTx[ctx]
@@ -349,8 +358,8 @@ func (r *Run) run() {
 	r.s.onRw = r.onRw
 	r.s.onSeam = r.onSeam
 	r.s.onQuiescent = r.onQuiescent
-	r.s.onRestore = func(point string) {
-		r.onRestore(point)
+	r.s.onRestore = func(point, task string) {
+		r.onRestore(point, task)
 		r.mu.Lock()
 		ab := r.abortFromHook
 		r.mu.Unlock()
@@ -504,6 +513,9 @@ func (r *Run) onRw(ev string) {
 				r.ledger.mu.Lock()
 				for _, tag := range a.commits {
 					r.ledger.expCommit[tag]++
+				}
+				for _, tag := range a.pres {
+					r.ledger.expPre[tag]++
 				}
 				if a.tr.plan.Mode == "update" {
 					r.ledger.expTxDone[a.tr.id]++
@@ -719,7 +731,7 @@ func (r *Run) onQuiescent() {
 	})
 	if err != nil {
 		r.mu.Lock()
-		restoreInvolved := r.restoring != nil || r.restores > 0
+		restoreInvolved := len(r.restoring) > 0 || r.restores > 0
 		r.mu.Unlock()
 		if restoreInvolved {
 			// a read transaction started while no restore holds the lock must see the old or the new database
@@ -814,8 +826,21 @@ func (r *Run) execWriteTx(t *Task, idx int, tx *TxPlan) {
 	if tx.Mode == "batch" {
 		need = NeedRLock
 	}
+	if tx.Early {
+		// enter the call whatever the reload lock's state is: it queues inside the library (hook "blocked.rlock") and
+		// must resume only when it can also get bbolt's writer lock
+		if tx.Mode == "batch" {
+			need = NeedNone
+			r.s.HintBlockedNeed(t.Name, NeedRLock)
+		} else {
+			need = NeedBoltWriter
+			r.s.HintBlockedNeed(t.Name, NeedWriter)
+		}
+	}
 	t.Yield("tx.begin", need)
-	ctx := boltz.NewMutateContext(context.Background())
+	goCtx, cancel := context.WithCancel(context.Background())
+	defer cancel()
+	ctx := boltz.NewMutateContext(goCtx)
 	callCtx := ctx
 	switch tx.Ctx {
 	case "nil":
@@ -834,7 +859,15 @@ func (r *Run) execWriteTx(t *Task, idx int, tx *TxPlan) {
 		r.res.FaultsConf[f.Kind]++
 	}
 	r.mu.Unlock()
-	body := func(ctx boltz.MutateContext) error { return r.body(tr, ctx) }
+	body := func(ctx boltz.MutateContext) error {
+		err := r.body(tr, ctx)
+		if tx.Ctx == "cancel" {
+			// the caller's context.Context is cancelled while the transaction function is still running (a request
+			// that timed out): the transaction commits all the same, and what commits is owed its callbacks
+			cancel()
+		}
+		return err
+	}
 	var err error
 	panicked := false
 	var callSeq uint64
@@ -870,6 +903,9 @@ func (r *Run) execWriteTx(t *Task, idx int, tx *TxPlan) {
 		}
 	}()
 	retSeq := r.s.NextSeq()
+	if tx.Early {
+		r.s.HintBlockedNeed(t.Name, NeedRLock)
+	}
 	if r.plan.Nonce {
 		r.mu.Lock()
 		h := histOp{Task: t.Name, Kind: "w", Call: callSeq, Ret: retSeq}
@@ -1053,11 +1089,26 @@ func (r *Run) execOp(a *attempt, ctx boltz.MutateContext, i int, op Op) error {
 		r.probe("skipped:" + exp.Why)
 		return nil
 	}
+	if !exp.OK {
+		for _, rule := range strings.Split(exp.Why, "+") {
+			r.probe("reject:" + rule) // which rules of the model prescribed the rejection (reach of fault kind F2)
+		}
+	}
 	// (the attempt number tells an action registered by an abandoned Batch attempt from the committed attempt's)
 	tag := fmt.Sprintf("%s#%d@%d", a.tr.id, i, len(a.tr.attempts))
 	switch op.K {
 	case "preCommit":
-		ctx.AddPreCommitAction(func(boltz.MutateContext) error {
+		pctx := ctx
+		if op.Sys {
+			pctx = ctx.GetSystemContext() // registered through a system context derived inside the transaction
+		}
+		r.mu.Lock()
+		a.pres = append(a.pres, tag)
+		r.mu.Unlock()
+		pctx.AddPreCommitAction(func(boltz.MutateContext) error {
+			r.ledger.mu.Lock()
+			r.ledger.PreActs[tag]++
+			r.ledger.mu.Unlock()
 			if op.Fail {
 				// the context keeps the actions of earlier attempts (Batch re-execution): charge the current one
 				r.mu.Lock()
@@ -1077,6 +1128,9 @@ func (r *Run) execOp(a *attempt, ctx boltz.MutateContext, i int, op Op) error {
 		a.commits = append(a.commits, tag)
 		r.mu.Unlock()
 		actx := ctx
+		if op.Sys {
+			actx = ctx.GetSystemContext()
+		}
 		if op.TxCtx {
 			// a context of its own over the running transaction: its commit actions hang on the same commit
 			actx = boltz.NewTxMutateContext(context.Background(), ctx.Tx())
